@@ -36,10 +36,10 @@ func (f Fate) String() string {
 
 // DnsPath describes what the network between DNS client and server does.
 type DnsPath struct {
-	Fate   func(exchange int) Fate                  // nil: always delivered (exchange numbers start at 1)
-	Query  func(exchange int, q *dns.Msg) bool      // mutate the query on its way; false = dropped
-	Answer func(exchange int, q, a *dns.Msg) bool   // mutate / veto the answer; false = dropped
-	MaxAns int                                      // >0: answers whose packed size exceeds this are dropped
+	Fate   func(exchange int) Fate                // nil: always delivered (exchange numbers start at 1)
+	Query  func(exchange int, q *dns.Msg) bool    // mutate the query on its way; false = dropped
+	Answer func(exchange int, q, a *dns.Msg) bool // mutate / veto the answer; false = dropped
+	MaxAns int                                    // >0: answers whose packed size exceeds this are dropped
 }
 
 const DnsDomain = "t.example.org"
@@ -51,10 +51,12 @@ type memServerComm struct {
 	closed bool
 }
 
-func (m *memServerComm) Close() error                         { m.mu.Lock(); m.closed = true; m.mu.Unlock(); return nil }
-func (m *memServerComm) Closed() bool                         { m.mu.Lock(); defer m.mu.Unlock(); return m.closed }
-func (m *memServerComm) RegisterAccept(f sdns.OnMessage)      { m.on = f }
-func (m *memServerComm) LocalAddr() net.Addr                  { return &net.UDPAddr{IP: net.IPv4(127, 0, 0, 1), Port: 53} }
+func (m *memServerComm) Close() error                    { m.mu.Lock(); m.closed = true; m.mu.Unlock(); return nil }
+func (m *memServerComm) Closed() bool                    { m.mu.Lock(); defer m.mu.Unlock(); return m.closed }
+func (m *memServerComm) RegisterAccept(f sdns.OnMessage) { m.on = f }
+func (m *memServerComm) LocalAddr() net.Addr {
+	return &net.UDPAddr{IP: net.IPv4(127, 0, 0, 1), Port: 53}
+}
 
 // DgramConn is the client's "UDP socket": it implements net.Conn and net.PacketConn so
 // that miekg/dns treats it as a datagram transport. A Write is one query datagram; it is
@@ -266,13 +268,13 @@ func (d *DgramConn) Write(p []byte) (int, error) {
 
 // DnsWorld is the DNS-tunnel part of a World.
 type DnsWorld struct {
-	W        *World
-	Comm     *memServerComm
-	Lis      *sdns.ServerDnsListener
-	Path     *DnsPath
-	Clients  []*sdns.ClientDnsConnection
-	Conns    []*DgramConn
-	HsErr    string
+	W       *World
+	Comm    *memServerComm
+	Lis     *sdns.ServerDnsListener
+	Path    *DnsPath
+	Clients []*sdns.ClientDnsConnection
+	Conns   []*DgramConn
+	HsErr   string
 }
 
 func newDnsWorld(w *World, chans server.Channels) (*DnsWorld, error) {
